@@ -2,7 +2,23 @@
 use super::{op_line, Gen};
 use crate::wire::data_of;
 
-pub const OPS: [&str; 30] = [
+pub const OPS: [&str; 46] = [
+    "lcc lat_1=57 lon_0=12",
+    "lcc lat_1=-33 lat_2=-45 lon_0=10",
+    "omerc latc=55 lonc=12 alpha=30 gamma_c=30 k_0=0.9996",
+    "somerc lat_0=55 lon_0=12",
+    "btmerc lon_0=12 k_0=0.9996",
+    "laea lat_0=90 lon_0=10",
+    "laea lat_0=0 lon_0=10",
+    "geodesic",
+    "geodesic reversible",
+    "latitude conformal",
+    "curvature mean",
+    "permtide from=mean to=zero",
+    "cart | cart inv ellps=intl",
+    "gridshift grids=test.datum inv",
+    "gridshift grids=test_subset.datum,test.datum",
+    "deflection grids=test.geoid",
     "addone",
     "helmert x=10 dx=1 t_epoch=2000",
     "helmert x=10 y=-3 z=2 rx=0.001 ry=0.002 rz=-0.003 s=0.01 dx=0.1 dy=0.2 dz=-0.1 drx=0.0001 ds=0.001 t_epoch=2010 convention=position_vector",
@@ -43,6 +59,9 @@ pub fn mixed_set(g: &mut Gen, n: usize) -> Vec<[f64; 4]> {
         let kind = g.rng.below(12);
         let t = epochs[g.rng.below(epochs.len())];
         let c = match kind {
+            // the poles, exactly; the half-cell margin band of the test grids (54-58 N, 8-16 E, cells of 1 degree)
+            6 => [g.rng.uniform(-3.0, 3.0), if g.rng.chance(1, 2) { std::f64::consts::FRAC_PI_2 } else { -std::f64::consts::FRAC_PI_2 }, 0.0, t],
+            7 => [(*g.rng.pick(&[12.0f64, 7.505, 16.495, 11.0])).to_radians(), (*g.rng.pick(&[53.501f64, 53.505, 53.51, 58.495, 58.499, 53.6])).to_radians(), 10.0, t],
             0 => [f64::NAN, 0.9, 0.0, t],
             1 => [0.2, f64::NAN, 10.0, t],
             2 => [3.0, 1.5, 1e7, t],        // far from every projection centre
@@ -91,7 +110,7 @@ pub fn generate(g: &mut Gen, thorough: bool) {
                     n >= 2,
                 );
                 // model/implementation correspondence for the operators the model covers
-                if n <= 40 && !def.contains("grids=") && ["addone", "helmert", "adapt", "axisswap", "unitconvert", "stack", "push v"].iter().any(|p| def.starts_with(p)) && !def.contains("cart") && !def.contains("utm") {
+                if n <= 40 && !def.contains("grids=") && !def.contains(':') {
                     g.push(op_line(kind, &[], &[], def, "apply", dir, &data), "model", n >= 2);
                 }
             }
